@@ -78,6 +78,10 @@ func gone(pid int) bool {
 type Options struct {
 	Seed  int64
 	Procs int
+	// Burst: every process exits by itself at once and nobody reads the events channel for PauseReaderMs: every
+	// termination event must still arrive once the reader starts (events may wait, they may not get lost)
+	Burst         bool
+	PauseReaderMs int
 	Fake  func(r *rec.Recorder) supvmodel.ProcessSupervisor // nil: the real LocalSupervisor
 }
 
@@ -99,6 +103,9 @@ func Run(opt Options) []rec.Event {
 	got := map[string]int{}
 	stop := make(chan struct{})
 	go func() {
+		if opt.PauseReaderMs > 0 {
+			time.Sleep(time.Duration(opt.PauseReaderMs) * time.Millisecond)
+		}
 		for {
 			select {
 			case ev := <-events:
@@ -131,6 +138,9 @@ func Run(opt Options) []rec.Event {
 		beh := Behaviours[rnd.Intn(len(Behaviours))]
 		delay := []int{0, 30, 80, 5000}[rnd.Intn(4)]
 		ops := rnd.Intn(5)
+		if opt.Burst {
+			beh, delay, ops = []string{"exit0", "exit3"}[rnd.Intn(2)], 0, 0
+		}
 		seed := rnd.Int63()
 		wg.Add(1)
 		go func() {
@@ -199,6 +209,9 @@ func Run(opt Options) []rec.Event {
 		}()
 	}
 	wg.Wait()
+	if opt.PauseReaderMs > 0 {
+		time.Sleep(time.Duration(opt.PauseReaderMs+100) * time.Millisecond)
+	}
 	// clean up: everything still running is killed, then all termination events must arrive
 	for _, name := range names {
 		r.Emit(name, "KillCall", "name", name, "past", false)
